@@ -474,6 +474,7 @@ class EndpointResponseHandlerGenerator:
                             type_service = UnifiedTypeService(self.schemas)
                             response_type = type_service.resolve_schema_type(resp_schema, context)
                             if self._should_use_cattrs_structure(response_type):
+                                self._register_cattrs_import(context)
                                 deserialization_code = self._get_cattrs_deserialization_code(response_type, data_expr)
                                 writer.write_line(f"return {deserialization_code}")
                                 self._register_imports_for_type(response_type, context)
@@ -712,6 +713,7 @@ class EndpointResponseHandlerGenerator:
                 writer.write_line("return response.text")
             elif self._should_use_cattrs_structure(python_type):
                 # Complex type - use cattrs deserialization
+                self._register_cattrs_import(context)
                 context.add_typing_imports_for_type(python_type)
                 deserialization_code = self._get_cattrs_deserialization_code(python_type, "response.json()")
                 writer.write_line(f"return {deserialization_code}")
